@@ -1212,8 +1212,25 @@ def dedup_idioms(ctx, funcs, rule='SINK', exempt=('duplicates', 'unique', 'dedup
     (a section or lot named twice gives two entries and a dup_* flag); only
     the duplicate filters may collapse them."""
     n = 0
+
+    def is_exempt(f):
+        return any(w in f.qualname.lower() for w in exempt) or any(w in p_.lower() for p_ in f.params() for w in exempt)
+
+    def only_called_by_exempt(f):
+        # a helper carved out of a duplicate filter (`_duplicate_key`, `_comparison_key`) works for it
+        def index():
+            idx = {}
+            for g in ctx.repo.funcs.values():
+                for c in walk_local(g.node):
+                    if isinstance(c, ast.Call):
+                        nm = (dotted(c.func) or '').split('.')[-1]
+                        if nm:
+                            idx.setdefault(nm, []).append(g)
+            return idx
+        callers = [g for g in ctx.cache('callers-by-simple-name', index).get(f.node.name, []) if g is not f]
+        return bool(callers) and all(is_exempt(g) for g in callers)
     for fi in funcs:
-        if any(w in fi.qualname.lower() for w in exempt) or any(w in p_.lower() for p_ in fi.params() for w in exempt):
+        if is_exempt(fi):
             continue
         for c in walk_local(fi.node):
             if isinstance(c, ast.Call) and dotted(c.func) == 'dict.fromkeys' and len(c.args) == 1 \
@@ -1227,6 +1244,8 @@ def dedup_idioms(ctx, funcs, rule='SINK', exempt=('duplicates', 'unique', 'dedup
                 nm = dotted(inner.func)
                 if nm not in ('dict.fromkeys', 'set', 'frozenset') or not inner.args:
                     continue
+            if only_called_by_exempt(fi):
+                continue
             n += 1
             ctx.violation(rule, f"{fi.qualname}: repeated entries are kept (`{norm(c)[:50]}`)",
                           f"`{norm(c)[:60]}` collapses entries that occur more than once: a section / lot that the text names "
@@ -1676,4 +1695,266 @@ def float_of_matched_text(ctx, funcs, rule='EXC'):
                       detail_bad=f"`{norm(c)}` converts a stated acreage without catching ValueError, and the acreage pattern also matches "
                                  f"brackets around {notnum[0]!r} ('Lot 1 ()', 'Lot 2 (.)'): ValueError escapes from the lot / aliquot "
                                  f"parse" if notnum else '', key=f"{rule}|{fi.qualname}|float-acreage", where=loc(fi, c))
+    return n
+
+
+def _match_group_reads(ctx, fi, var, consts=None, depth=0, seen=None):
+    """Named groups read from the match object bound to `var` inside `fi`,
+    following helpers the match object is handed to (three levels, string
+    constants of the call bound to the helper's parameters so that
+    `mo[f'{kind}num_rightmost']` resolves).  Returns (by_value, by_position):
+    {group: node} for `mo['g']` / `mo.group('g')` / `mo.groupdict()['g']`,
+    and the set of groups whose span is consulted (`mo.start('g')` ...)."""
+    consts = consts or {}
+    seen = seen if seen is not None else set()
+    by_value, by_pos = {}, set()
+    if (fi.fullname, var) in seen or depth > 3:
+        return by_value, by_pos
+    seen.add((fi.fullname, var))
+
+    def gname(e):
+        if isinstance(e, ast.Constant) and isinstance(e.value, str):
+            return e.value
+        if isinstance(e, ast.JoinedStr):
+            out = ''
+            for part in e.values:
+                if isinstance(part, ast.Constant):
+                    out += str(part.value)
+                elif isinstance(part, ast.FormattedValue) and isinstance(part.value, ast.Name) \
+                        and part.value.id in consts and part.format_spec is None:
+                    out += consts[part.value.id]
+                else:
+                    return None
+            return out
+        return None
+
+    aliases = {var}
+    dicts = set()
+    for x in walk_local(fi.node):
+        if isinstance(x, ast.Assign) and len(x.targets) == 1 and isinstance(x.targets[0], ast.Name):
+            v = x.value
+            if isinstance(v, ast.Name) and v.id in aliases:
+                aliases.add(x.targets[0].id)
+            if isinstance(v, ast.Call) and isinstance(v.func, ast.Attribute) and v.func.attr == 'groupdict' \
+                    and isinstance(v.func.value, ast.Name) and v.func.value.id in aliases:
+                dicts.add(x.targets[0].id)
+    for x in walk_local(fi.node):
+        if isinstance(x, ast.Subscript) and isinstance(x.value, ast.Name) and x.value.id in (aliases | dicts) \
+                and isinstance(x.ctx, ast.Load):
+            g = gname(x.slice)
+            if g is not None:
+                by_value.setdefault(g, x)
+        elif isinstance(x, ast.Subscript) and isinstance(x.value, ast.Call) and isinstance(x.value.func, ast.Attribute) \
+                and x.value.func.attr == 'groupdict' and isinstance(x.value.func.value, ast.Name) \
+                and x.value.func.value.id in aliases:
+            g = gname(x.slice)
+            if g is not None:
+                by_value.setdefault(g, x)
+        elif isinstance(x, ast.Call) and isinstance(x.func, ast.Attribute) and isinstance(x.func.value, ast.Name):
+            base, attr = x.func.value.id, x.func.attr
+            if base in aliases and attr == 'group' and x.args:
+                for a in x.args:
+                    g = gname(a)
+                    if g is not None:
+                        by_value.setdefault(g, x)
+            elif base in aliases and attr in ('start', 'end', 'span') and x.args:
+                g = gname(x.args[0])
+                if g is not None:
+                    by_pos.add(g)
+            elif base in dicts and attr == 'get' and x.args:
+                g = gname(x.args[0])
+                if g is not None:
+                    by_value.setdefault(g, x)
+        if isinstance(x, ast.Call):
+            hit = [i for i, a in enumerate(x.args) if isinstance(a, ast.Name) and a.id in aliases]
+            kwhit = [k.arg for k in x.keywords if k.arg and isinstance(k.value, ast.Name) and k.value.id in aliases]
+            if not hit and not kwhit:
+                continue
+            from .. import flow as _flow
+            nm = dotted(x.func) or ''
+            node = _flow.RESOLVER(nm, x, fi.node) if _flow.RESOLVER and nm else None
+            callee = getattr(node, '_func', None) if node is not None else None
+            if callee is None:
+                continue
+            params = [p for p in callee.params() if p not in ('self', 'cls')]
+            sub = {}
+            for i, a in enumerate(x.args):
+                if i < len(params):
+                    if isinstance(a, ast.Constant) and isinstance(a.value, str):
+                        sub[params[i]] = a.value
+                    elif isinstance(a, ast.Name) and a.id in consts:
+                        sub[params[i]] = consts[a.id]
+            for k in x.keywords:
+                if k.arg and isinstance(k.value, ast.Constant) and isinstance(k.value.value, str):
+                    sub[k.arg] = k.value.value
+            targets = [params[i] for i in hit if i < len(params)] + [k for k in kwhit if k in params]
+            for p in targets:
+                v2, p2 = _match_group_reads(ctx, callee, p, sub, depth + 1, seen)
+                # a helper that consults the group's span has settled which
+                # iteration the text belongs to
+                for g, n_ in v2.items():
+                    if g in p2:
+                        by_pos.add(g)
+                    by_value.setdefault(g, x)
+                by_pos |= p2
+    return by_value, by_pos
+
+
+def stale_captures(ctx, funcs, rule='RX-GROUPS', skip_groups=()):
+    """A group inside `( ... )*` keeps the text of the last iteration that
+    went through it.  Code that walks such a match from the right (it reads a
+    group every iteration sets - `intervener`, `lotnum_rightmost` - to find
+    the rightmost element) and also reads, by value, a group that only SOME
+    iterations set (`word_lot_rightmost`, `and`, `thru`) may be looking at
+    what an element further left captured.  The package knows
+    (thru_rightmost: "Do NOT check 'through' named group directly ...");
+    the accepted idioms are re-searching the rightmost span, or comparing
+    `mo.start(group)` with the rightmost intervener."""
+    from .. import rx as _rx
+    from ..fold import RegexVal
+    n = 0
+    for fi in funcs:
+        mvars = {}
+        for x in walk_local(fi.node):
+            call = tgt = None
+            if isinstance(x, ast.Assign) and len(x.targets) == 1 and isinstance(x.targets[0], ast.Name) \
+                    and isinstance(x.value, ast.Call):
+                call, tgt = x.value, x.targets[0].id
+            elif isinstance(x, ast.NamedExpr) and isinstance(x.value, ast.Call):
+                call, tgt = x.value, x.target.id
+            elif isinstance(x, ast.For) and isinstance(x.target, ast.Name) and isinstance(x.iter, ast.Call):
+                call, tgt = x.iter, x.target.id
+            if call is None or not isinstance(call.func, ast.Attribute):
+                continue
+            if call.func.attr not in ('search', 'match', 'fullmatch', 'finditer'):
+                continue
+            recv = call.func.value
+            if isinstance(recv, ast.Name) and recv.id == 're':
+                if not call.args:
+                    continue
+                recv = call.args[0]
+            try:
+                rv = fold_in_func(ctx, fi, recv)
+            except AnalysisError:
+                continue
+            if isinstance(rv, str):
+                rv = RegexVal(rv, 0)
+            if isinstance(rv, RegexVal):
+                mvars.setdefault(tgt, []).append(rv)
+        for var, rvs in sorted(mvars.items()):
+            by_value, by_pos = _match_group_reads(ctx, fi, var)
+            if not by_value:
+                continue
+            for rv in rvs:
+                reps = ctx.cache(('iter-groups', rv.pattern, rv.flags),
+                                 lambda rv=rv: _rx.iteration_groups(rv.pattern, rv.flags))
+                for fresh, stale in reps:
+                    rightmost = sorted((set(by_value) | by_pos) & fresh)
+                    if not rightmost:
+                        continue      # 'did any element have it' reading: not a rightmost walk
+                    for g in sorted(set(by_value) & stale):
+                        if g in skip_groups:
+                            continue      # not this property's concern (see the caller)
+                        n += 1
+                        ctx.check(g in by_pos, rule,
+                                  f"{fi.qualname}: `{var}['{g}']` is tied to the rightmost element by its position",
+                                  detail_bad=f"{fi.qualname} walks the match from the right (it reads `{rightmost[0]}`, which every "
+                                             f"repetition sets) and reads `{g}` by value; `{g}` is set by some repetitions only, and "
+                                             f"Python keeps the text of the LAST repetition that set it - so for a list whose "
+                                             f"rightmost element does not set `{g}` the value comes from an element further left "
+                                             f"('N/2 of Lot 1 - Lot 3, 4': `word_lot_rightmost` still holds the 'Lot' of '- Lot 3' "
+                                             f"while the rightmost element is ', 4')",
+                                  key=f"{rule}|{fi.qualname}|stale-group|{g}", where=loc(fi, by_value[g]))
+    return n
+
+
+def membership_kind_mismatch(ctx, funcs, rule='SIB'):
+    """`i not in seen` where `i` is a position (the index of enumerate() /
+    range()) and `seen` is a local collection that only ever receives the
+    ELEMENTS (or keys built from them), or the other way round: the test can
+    never be true / false, so the branch it guards is dead or unconditional
+    (the guard against recording an index twice no longer guards anything).
+    Kinds are read off the function itself: index variables of enumerate /
+    range, loop elements, strings built from them; a collection with an
+    addition of unknown kind is not judged."""
+    n = 0
+    for fi in funcs:
+        idx, elem = set(), set()
+        for x in walk_local(fi.node):
+            if isinstance(x, (ast.For, ast.comprehension)):
+                it, tg = x.iter, x.target
+                if isinstance(it, ast.Call) and dotted(it.func) == 'enumerate' and isinstance(tg, ast.Tuple) and len(tg.elts) == 2:
+                    if isinstance(tg.elts[0], ast.Name):
+                        idx.add(tg.elts[0].id)
+                    for e in ast.walk(tg.elts[1]):
+                        if isinstance(e, ast.Name):
+                            elem.add(e.id)
+                elif isinstance(it, ast.Call) and dotted(it.func) == 'range' and isinstance(tg, ast.Name):
+                    idx.add(tg.id)
+                elif isinstance(tg, ast.Name):
+                    elem.add(tg.id)
+        if not idx:
+            continue
+        stores = {}
+        for x in walk_local(fi.node):
+            if isinstance(x, ast.Name) and isinstance(x.ctx, ast.Store):
+                stores[x.id] = stores.get(x.id, 0) + 1
+        idx = {i for i in idx if stores.get(i, 0) == 1}
+
+        def kind(e):
+            if isinstance(e, ast.Name):
+                if e.id in idx:
+                    return 'index'
+                if e.id in elem and stores.get(e.id, 0) == 1:
+                    return 'element'
+                defs = [a.value for a in walk_local(fi.node) if isinstance(a, ast.Assign) and len(a.targets) == 1
+                        and isinstance(a.targets[0], ast.Name) and a.targets[0].id == e.id]
+                if defs and len(defs) == stores.get(e.id, 0):
+                    ks = {kind(d) for d in defs}
+                    if ks <= {'element', 'string'}:
+                        return 'element' if ks == {'element'} else 'string' if ks == {'string'} else 'element-or-string'
+                return None
+            if isinstance(e, ast.JoinedStr) or (isinstance(e, ast.Constant) and isinstance(e.value, str)):
+                return 'string'
+            if isinstance(e, ast.Attribute) and isinstance(e.value, ast.Name) and e.value.id in elem:
+                return 'string' if e.attr in ('trs', 'desc', 'pp_desc', 'twprge', 'twp', 'rge', 'sec') else None
+            if isinstance(e, ast.BinOp) and isinstance(e.op, (ast.Add, ast.Sub)) and 'index' in (kind(e.left), kind(e.right)):
+                return 'index'
+            return None
+        colls = {}
+        for x in walk_local(fi.node):
+            if isinstance(x, ast.Assign) and len(x.targets) == 1 and isinstance(x.targets[0], ast.Name):
+                v = x.value
+                if (isinstance(v, (ast.List, ast.Set)) and not v.elts) or (isinstance(v, ast.Call) and dotted(v.func) in ('set', 'list') and not v.args):
+                    colls.setdefault(x.targets[0].id, [])
+        for x in walk_local(fi.node):
+            if isinstance(x, ast.Call) and isinstance(x.func, ast.Attribute) and isinstance(x.func.value, ast.Name) \
+                    and x.func.value.id in colls:
+                if x.func.attr in ('add', 'append') and len(x.args) == 1:
+                    colls[x.func.value.id].append(kind(x.args[0]))
+                elif x.func.attr in ('extend', 'update', 'insert', 'union'):
+                    colls[x.func.value.id].append(None)
+            elif isinstance(x, ast.AugAssign) and isinstance(x.target, ast.Name) and x.target.id in colls:
+                colls[x.target.id].append(None)
+        for name in list(colls):
+            if stores.get(name, 0) != 1:
+                colls.pop(name)         # rebound somewhere: not followed
+        for x in walk_local(fi.node):
+            if not (isinstance(x, ast.Compare) and len(x.ops) == 1 and isinstance(x.ops[0], (ast.In, ast.NotIn))
+                    and isinstance(x.comparators[0], ast.Name) and x.comparators[0].id in colls):
+                continue
+            added = colls[x.comparators[0].id]
+            pk = kind(x.left)
+            if pk is None or not added or None in added:
+                continue
+            n += 1
+            is_index = pk == 'index'
+            has_index = 'index' in added
+            mismatch = (is_index and not has_index) or (not is_index and all(a == 'index' for a in added))
+            ctx.check(not mismatch, rule, f"{fi.qualname}: `{norm(x)}` asks the collection for the kind of value it holds",
+                      f"{pk} against {sorted(set(added))}",
+                      f"`{norm(x)}`: `{norm(x.left)}` is {'a position (loop index)' if is_index else 'an element / key'}, but "
+                      f"`{x.comparators[0].id}` only ever receives {sorted(set(added))} in {fi.qualname} - the test has the same "
+                      f"outcome for every element, so the branch it guards no longer does its job (an index is recorded twice, "
+                      f"or never)", key=f"{rule}|{fi.qualname}|membership-kind|{norm(x)[:40]}", where=loc(fi, x))
     return n
